@@ -2,14 +2,16 @@
 
    [convertible s]   exactly the schemas on which the converter does not panic
                      (proved: [is_ok (j2oas n s) = convertible s]).
-   [supported_with nullok s]
+   [supported_with nullok fracok s]
                      the converter succeeds AND no keyword that takes part in
-                     validation is dropped or altered on the way.  [nullok]
-                     says whether the instance type [null] may occur
-                     ([type: null] is converted to {type:string, enum:[null]},
-                     finding K4).  [supported := supported_with true] is the
-                     class the property speaks about; the preservation theorem
-                     needs [supported_with false].
+                     validation is dropped on the way.  [nullok] says whether
+                     the instance type [null] may occur ([type: null] is
+                     converted to {type:string, enum:[null]}, finding K4);
+                     [fracok] whether an integer schema may carry a bound that
+                     [f64 as i64] changes (finding K6).  [supported :=
+                     supported_with true true] is the class the property
+                     speaks about; the preservation theorem is for
+                     [supported_faithful := supported_with false false].
    [annots_js]/[annots_oas]  the annotations of every schema node in traversal
                      order, for the "annotations are kept" clause.
    [env_js]/[env_oas] interpretation of [$ref] through a list of definitions
@@ -176,7 +178,9 @@ Definition untyped_rest_trivial (o : sobj schema) : bool :=
   && arrval_trivial (so_array o) && objval_trivial (so_object o).
 
 Section Supported.
-  Variable nullok : bool.
+  Variable nullok : bool.   (* may the null instance type occur (K4) *)
+  Variable fracok : bool.   (* may an integer schema carry a bound / multipleOf that is not an
+                               integer inside i64 (K6) *)
 
   Fixpoint supported_with (s : schema) {struct s} : bool :=
     match s with
@@ -197,7 +201,8 @@ Section Supported.
             | Some (Single TNumber), None =>
                 bounds_convertible (so_number o) && enum_supported ev_num_exact (so_enum_values o)
             | Some (Single TInteger), None =>
-                bounds_convertible (so_number o) && int_bounds_exact (so_number o)
+                bounds_convertible (so_number o)
+                && (fracok || int_bounds_exact (so_number o))
                 && enum_supported ev_int (so_enum_values o)
             | Some (Single TObject), None =>
                 is_none (so_format o) && is_none (so_enum_values o) &&
@@ -228,10 +233,16 @@ Section Supported.
     end.
 End Supported.
 
-Definition supported : schema -> bool := supported_with true.
-Definition supported_nonull : schema -> bool := supported_with false.
-(* the class of finding K4: supported, but some traversed node has type null *)
-Definition k4_class (s : schema) : bool := supported s && negb (supported_nonull s).
+(* the class the property speaks about: the converter accepts the schema and
+   drops no keyword on the way *)
+Definition supported : schema -> bool := supported_with true true.
+(* ... minus the two known classes: the class on which preservation is proved *)
+Definition supported_faithful : schema -> bool := supported_with false false.
+(* the class of finding K4: supported, but some visited node has type null *)
+Definition k4_class (s : schema) : bool := supported s && negb (supported_with false true s).
+(* the class of finding K6: supported, but some visited integer node has a
+   fractional or out-of-i64 bound or multipleOf *)
+Definition k6_class (s : schema) : bool := supported s && negb (supported_with true false s).
 
 (* ------------------------------------------------------------ annotations *)
 
